@@ -64,6 +64,7 @@ type interpreter struct {
 // interpreted code never reads through our externals.
 var initSet = map[string]bool{
 	"golang.org/x/exp/rand": true, "unicode": true, "unicode/utf8": true, "strconv": true, "math/bits": true,
+	"bytes": true, "strings": true,
 }
 
 // nativeFn is an engine-implemented function value handed to target code.
@@ -570,6 +571,9 @@ func fnMetaOf(fn *ssa.Function) *fnMeta {
 	}
 	m := &fnMeta{name: fn.String(), pkgPath: pkgPathOf(fn)}
 	m.ext = externals[m.name]
+	if m.ext == nil && strings.Contains(m.name, "[") {
+		m.ext = genericExternal(m.name)
+	}
 	m.report = strings.HasPrefix(m.pkgPath, "github.com/sealdice/dicescript") || strings.HasSuffix(m.pkgPath, "x/exp/rand")
 	if fn.Blocks != nil && m.ext == nil {
 		m.code = compileFn(fn)
